@@ -1,4 +1,4 @@
 From Coq Require Import ExtrOcamlBasic NArith.
 From LLRP Require Import Header.Header.
 Extraction Language OCaml.
-Extraction "model.ml" hdr_decode read_header read_header_chunks read_full hdr_encode write_header.
+Extraction "model.ml" hdr_decode read_header read_header_chunks read_full hdr_encode write_header encode_batch decode_batch.
